@@ -180,6 +180,71 @@ Proof.
   destruct (con_go ff evs s true [] None) as [r s1]. exact P.
 Qed.
 
+(* a group reports what its member parser reported, or that its first item is missing *)
+Definition mnpf (m : message) : Prop := forall f, m <> MsgParseFailure f.
+Definition stepn (st : adj_step) : Prop :=
+  match st with ANext b => mnpf (b_err b) | AStop r _ => npf r | AReturn _ _ => True end.
+
+Lemma npf_err m : mnpf m -> npf (RErr m).
+Proof. intros H f E. inversion E. eapply H; eauto. Qed.
+Lemma err_npf m : npf (RErr m) -> mnpf m.
+Proof. intros H f E. apply (H f). rewrite E. reflexivity. Qed.
+
+Lemma adj_inner_npf ev orig before : npfe ev -> forall fuel ta best, mnpf (b_err best) ->
+  stepn (adj_inner ev orig before fuel ta best).
+Proof.
+  intros Hn. induction fuel as [|f IH]; intros ta best Hb; [cbn; npf_msg|].
+  unfold adj_inner; fold adj_inner. pose proof (Hn ta) as N. destruct (ev ta) as [r t1]. cbn [fst] in N.
+  destruct r; cbn [stepn]; try npf_msg.
+  - destruct (adjacent_scope t1 orig) as [| |a b]; cbn [stepn]; try npf_msg.
+    + destruct (set_scope t1 _ _); cbn [stepn]; [exact I|npf_msg].
+    + destruct (set_scope orig a b) as [ta'|]; [apply IH; exact Hb|cbn; npf_msg].
+  - destruct (Nat.ltb before (remaining t1)); cbn [stepn]; [npf_msg|].
+    destruct (Nat.ltb (b_consumed best) (before - remaining t1)); cbn [stepn b_err]; [apply err_npf; exact N|exact Hb].
+Qed.
+
+Lemma adj_try_npf ev orig width start best : npfe ev -> mnpf (b_err best) -> stepn (adj_try ev orig width start best).
+Proof.
+  intros Hn Hb. unfold adj_try.
+  destruct (set_scope orig start (length (items orig))) as [t0|]; [|cbn; npf_msg].
+  destruct (set_scope t0 start (start + width)) as [sc|]; [|cbn; npf_msg].
+  destruct (Nat.eqb (remaining sc) 0); [exact Hb|].
+  pose proof (Hn sc) as N. destruct (ev sc) as [r0 sc']. cbn [fst] in N.
+  assert (Hgo : stepn (if Nat.eqb (remaining sc) (remaining sc') then ANext best
+                   else match set_scope t0 start (sc_end orig) with
+                        | None => AStop (RPanic P_set_scope) orig
+                        | Some this_arg1 =>
+                          match (if Nat.ltb (remaining this_arg1) (sc_end orig - start)
+                                 then let '(a, b) := adjacently_available_from this_arg1 start in set_scope this_arg1 a b
+                                 else Some this_arg1) with
+                          | None => AStop (RPanic P_set_scope) orig
+                          | Some this_arg2 => adj_inner ev orig (remaining this_arg1) (loop_fuel orig) this_arg2 best
+                          end
+                        end)).
+  { destruct (Nat.eqb (remaining sc) (remaining sc')); [exact Hb|].
+    destruct (set_scope t0 start (sc_end orig)) as [t1|]; [|cbn; npf_msg].
+    destruct (Nat.ltb (remaining t1) (sc_end orig - start)).
+    - destruct (adjacently_available_from t1 start) as [a b].
+      destruct (set_scope t1 a b) as [t2|]; [apply adj_inner_npf; assumption|cbn; npf_msg].
+    - apply adj_inner_npf; assumption. }
+  destruct r0; try exact Hgo; cbn; npf_msg.
+Qed.
+
+Lemma adj_outer_npf ev orig width : npfe ev -> forall starts best, mnpf (b_err best) ->
+  npf (fst (adj_outer ev orig width starts best)).
+Proof.
+  intros Hn. induction starts as [|st more IH]; intros best Hb; cbn [adj_outer].
+  - destruct (set_scope (b_args best) (sc_start orig) (sc_end orig)); cbn [fst]; [apply npf_err; exact Hb|npf_msg].
+  - pose proof (adj_try_npf ev orig width st best Hn Hb) as N.
+    destruct (adj_try ev orig width st best) as [v s|b|r s]; cbn [fst stepn] in *; [npf_msg|apply IH; exact N|exact N].
+Qed.
+
+Lemma adjacent_npf ev fi : npfe ev -> npfe (eval_adjacent ev fi).
+Proof.
+  intros Hn s. unfold eval_adjacent. destruct fi as [it|]; [|cbn; npf_msg].
+  apply adj_outer_npf; [exact Hn|]. intros f E. discriminate.
+Qed.
+
 Theorem memb_npf :
   (forall p, memb p = true -> npfe (eval env p)) /\
   (forall ps, membl ps = true -> Forall npfe (evals env ps)) /\
@@ -194,6 +259,7 @@ Proof.
     + intros s. rewrite eval_PCon_nil. cbn. npf_msg.
     + intros s. rewrite eval_PCon_one. specialize (H H0). rewrite evals_cons in H. inversion H; subst. auto.
     + intros s. rewrite eval_PCon_many. apply con_npf. apply H. exact H0.
+  - intros s. rewrite eval_PAdj. apply adjacent_npf. apply con_npf. apply H. exact H0.
   - apply andb_prop in H1. destruct H1. intros s. rewrite eval_POr. apply or_npf; auto.
   - intros s. rewrite eval_POptional. apply optional_npf. auto.
   - intros s. rewrite eval_PMany. apply many_npf. auto.
